@@ -5,4 +5,9 @@ func genAll() {
 	genHashes()
 	genLocks()
 	genCallback()
+	genDKGTable()
+	genSecrets()
+	genMirrors()
+	genRouting()
+	genPersist()
 }
